@@ -131,7 +131,7 @@ PROPS = {
         'level_text': 'Proof over R about the model of check_intersection (after the fix deriving the shell count from the cell heights): if the check finds nothing (a score is reported) then NO two distinct lattice images of symmetry copies properly meet, for all copies i,j and all lattice vectors however far (prefilter soundness from orthogonal placements and the enclosing radius, |uA+vB| >= |u| a sin t, shells*min(a,b)*sin t >= 2R for the generated shell rule, translation invariance and symmetry of the pair tests, completeness of the pair tests from C12). Discs: the open disc-unions of distinct images are disjoint. Polygons partial: edges that really share a point and are not near-parallel are excluded; interior-disjointness of convex copies rests on C12 H_cross.',
         'level_note': 'Trusted: Lean kernel + 3 axioms; model of packed.rs/cell.rs/site.rs tied by bit-exact state/optc families; shell rule and prefilter constants regenerated by the translator and pinned by a decidable obligation; f64 rounding outside the theorem.',
         'technique': 'Lean 4 geometric proof over R + translator-pinned constants + bit-exact differential correspondence',
-        'theorems': ['Proofs.C01', 'Proofs.C12Convex', 'Proofs.TieDisc', 'Proofs.TieLine'],
+        'theorems': ['Proofs.C01', 'Proofs.C12Convex', 'Proofs.TieDisc', 'Proofs.TieLine', 'Proofs.TieHardShape', 'Proofs.TiePacked', 'Proofs.TieImages', 'Proofs.TieSite', 'Proofs.C12Orient', 'Proofs.C12Polygon'],
         'families': [('state_hard', 2500, 40000), ('optc_hard', 200, 4000), ('pair_hard', 1500, 20000)],
         'search': (15, 400),
         'rule': 'state: 7 groups x polygons/radial/circle/trimers x cells over the optimiser box (dense and dilute) incl. bound-clamped coordinates; non-trivial = any ok reply; search: exhaustive lattice-overlap oracle (shells from cell heights + margin, SAT / disc distances) on adversarial dense/skewed/elongated states, on far-overlap-only states found by geometric rejection sampling, and on states returned by the optimiser',
@@ -142,7 +142,7 @@ PROPS = {
         'level_text': 'Proof over R: score = area*N/cellArea with cellArea = |AxB| (C14); LineShape area equals the shoelace area of the closed outline from_radial builds (n>=3, r>=0), (n/2) sin(2pi/n) for polygon n; disc-union area = measure of the union minus the triple intersection for any finite measure realising the disc and lens values (exact when no point lies in all three discs, an under-count otherwise: known finding F10). Partial: score <= 1 as the measure statement covered_le_cell with the tiling hypothesis explicit; lens formula taken as hypothesis.',
         'level_note': 'Trusted: lens-area closed form and "shoelace = area" as geometry; Lean kernel + 3 axioms; Mathlib measure theory; area/score functions tied by bit-exact pair/state families.',
         'technique': 'Lean 4 proof (trigonometric identities, inclusion-exclusion in measure theory) + differential correspondence + exact-area oracle',
-        'theorems': ['Proofs.C02', 'Proofs.TieDisc', 'Proofs.TieCell'],
+        'theorems': ['Proofs.C02', 'Proofs.TieDisc', 'Proofs.TieCell', 'Proofs.TieHardShape', 'Proofs.TiePacked', 'Proofs.C02Lens'],
         'families': [('pair_hard', 2500, 40000), ('state_hard', 1500, 20000), ('cell', 800, 10000)],
         'search': (12, 300),
         'rule': 'pair: area/radius/items of polygons 3..69 sides, radial polygons, circle, trimers over the CLI parameter space; search: shoelace oracle, union-of-discs area by tanh-sinh scanline integration stratified by overlap topology, score = N*area/|AxB| in (0,1] on random and optimised states',
@@ -153,7 +153,7 @@ PROPS = {
         'level_text': 'Proof over R about the model of PotentialState::score (after the weight fix): score = -(in-cell pairs once + 1/2 * ordered image pairs over 3 shells)/N with weight and shell count regenerated from the source; for a symmetric pair energy (all particles alike, C13) this is -(1/N)*(1/2)*sum_i sum over all other images (j,T) in the box of E(i,j+T): every pair of distinct images counted once per molecule, independent of whether a neighbour is an in-cell copy or a periodic image; for cut potentials every term outside the box of k shells is exactly 0 when k*min(a,b)*sin t >= cutoff + 2*extent, so the box sum equals every larger box sum. Partial: uncut potential = the truncated sum (tail not bounded); unlike particles (F11b) and images beyond shell 3 (F7) are known findings; invariance under re-description is covered by the lattice-sum and origin-shift oracles.',
         'level_note': 'Trusted: Lean kernel + 3 axioms; score model tied by bit-exact state/optc families; constants (3 shells, weight 1/2, normalisation) regenerated by the translator and pinned.',
         'technique': 'Lean 4 proof over R (finite lattice sums) + translator-pinned constants + bit-exact differential correspondence + independent lattice-sum oracle',
-        'theorems': ['Proofs.C03', 'Proofs.TieLJ'],
+        'theorems': ['Proofs.C03', 'Proofs.TieLJ', 'Proofs.TieLJShape', 'Proofs.TiePotential', 'Proofs.TieImages', 'Proofs.TieSite'],
         'families': [('state_lj', 2500, 40000), ('pair_lj', 1500, 20000), ('optc_lj', 150, 3000)],
         'search': (15, 400),
         'rule': 'state: LJ circle and trimers x 7 groups x cells incl. flat/skewed; search: independent closed-form lattice sum (code convention and each-pair-once convention, exhaustive shells for cut potentials) against score(), and origin shifts by symmetry-equivalent half lattice vectors (tolerance for the uncut potential = truncation error measured by the oracle)',
@@ -164,7 +164,7 @@ PROPS = {
         'level_text': 'Full proof: the parser commutes with Q->R, so kernel-decided table facts (projective row zero, +-I only for oblique tables, diag(+-1,+-1) only for rectangular tables, closure mod lattice) hold of the real matrices; for every table, every cell of its family (cos angle = 0 for rectangular), every site and every group operation g, X -> L_g X + C t_g is orthogonal and maps the placement of copy k onto that of a copy k\' translated by a lattice vector (orientation, handedness, position); one copy per operation; the family constraint depends on the angle only and holds initially; preserved by optimisation through C08.',
         'level_note': 'Trusted: Lean kernel + 3 axioms; translator for tables; model of site/cell positions tied by bit-exact site/state families.',
         'technique': 'Lean 4 proof over R with kernel-decided table facts transported through a parser-cast theorem + differential correspondence',
-        'theorems': ['Proofs.C04', 'Proofs.TieWrap'],
+        'theorems': ['Proofs.C04', 'Proofs.TieWrap', 'Proofs.TieSite', 'Proofs.TieImages'],
         'families': [('site', 2000, 40000), ('state', 2000, 30000), ('tables', 14, 14)],
         'search': (10, 240),
         'rule': 'search: on real states (both kinds, all groups, also after optimisation) every reference group operation in Cartesian form must be an isometry of the current cell and map the set of real cartesian_positions() onto itself modulo the lattice (1e-9)',
@@ -211,7 +211,7 @@ PROPS = {
         'level_text': 'Proof over R. Discs complete: test <=> the open discs share a point; symmetric; invariant under common rigid motions/reflections. Segments (after the tolerance fix): test <=> not near-parallel (|cross| <= 1e-12 |a||b|) and the 1e-12-extended segments share a point; yes implies points of the true segments within 1e-12(|a|+|b|); complete for non-near-parallel segments sharing a point; symmetric; invariant under orthogonal maps. Polygons: test <=> some such edge pair; coincident copies detected. Partial: interiors-overlap => test for congruent convex polygons is the stated hypothesis H_cross.',
         'level_note': 'Trusted: Lean kernel + 3 axioms; pair predicates tied by the bit-exact pair family; tolerance constant regenerated by the translator and pinned.',
         'technique': 'Lean 4 proof (planar geometry over R) + bit-exact differential correspondence + separating-axis oracle',
-        'theorems': ['Proofs.C12', 'Proofs.C12Convex', 'Proofs.TieDisc', 'Proofs.TieLine'],
+        'theorems': ['Proofs.C12', 'Proofs.C12Convex', 'Proofs.TieDisc', 'Proofs.TieLine', 'Proofs.TieHardShape', 'Proofs.C12Orient', 'Proofs.C12Polygon'],
         'families': [('pair_hard', 4000, 80000), ('mat', 1000, 20000)],
         'search': (12, 300),
         'rule': 'pair: line/atom/shape intersects on placements around contact distance, transforms; search: separating-axis (convex polygons) and disc-distance oracle with 1e-9 tolerance, argument swap, common rigid motion/reflection, aligned special configurations (parallel edges, shared vertices, coincident copies, displacement along an edge direction)',
@@ -222,7 +222,7 @@ PROPS = {
         'level_text': 'Proof over R: uncut energy = 4 eps ((s^2/r^2)^6 - (s^2/r^2)^3) = 4 eps((s/r)^12-(s/r)^6); cut: shifted inside, exactly 0 at and beyond the cutoff; depends on the squared distance only; invariant under common rigid motions; >= -eps with equality iff (s^2/r^2)^3 = 1/2; molecule energy = sum over particle pairs; trimer constants sigma = 2 radius, cutoff 7/2 (generated). Partial: symmetry proved for like particles only; for unlike particles it is FALSE of the code (kernel-decided witness over Q) - known finding F11.',
         'level_note': 'Trusted: Lean kernel + 3 axioms; LJ2/LJShape2 energy tied by the bit-exact pair family.',
         'technique': 'Lean 4 proof over R + kernel-decided counterexample over Q + bit-exact differential correspondence',
-        'theorems': ['Proofs.C13', 'Proofs.TieLJ'],
+        'theorems': ['Proofs.C13', 'Proofs.TieLJ', 'Proofs.TieLJShape'],
         'families': [('pair_lj', 4000, 80000)],
         'search': (10, 240),
         'rule': 'pair: lj2 energies over 3.5 orders of magnitude in r, sigma, epsilon, cut and uncut, molecule energies under random placements; search: closed-form oracle (powf), zero beyond cutoff, minimum, rigid-motion invariance, symmetry (like and unlike particles separately), molecule = sum over pairs',
@@ -266,7 +266,7 @@ PROPS = {
         'level_text': 'Proof over R: clamp lands in range; run invariant — if every handled parameter starts inside its range then every proposal and the result keep every handled parameter inside its range and every unhandled parameter unchanged, for any history; generated degrees of freedom and bounds (regenerated from cell.rs/site.rs each run) equal the declared ones (length [0.01,cur], ratio [0.1,cur], angle [pi/6,pi/2] only for oblique cells, x,y in [-1/2,1/2], orientation [0,2pi]); handle addresses distinct; angle unhandled unless Monoclinic; chained stages re-derive contained ranges; no degenerate cell inside the box; every table with any hard shape whose components lie within its positive enclosing radius starts from a state that passes the overlap check with a positive finite score (kernel-decided separation of the initial copies per table, transported to R), and every LJ initial state reports a score. Partial: finiteness of the returned score along a run rests on the score functions (C02/C03) and the NaN clause of C07.',
         'level_note': 'Trusted: translator pvtx.py for bounds (validated by cell dof / site basis / state basis requests observed behaviourally on the crate); Lean kernel + 3 axioms.',
         'technique': 'Lean 4 invariant proof + kernel-decided declared-constants obligations over translator output + differential correspondence',
-        'theorems': ['Proofs.C08', 'Proofs.C08Init', 'Proofs.TieBasis'],
+        'theorems': ['Proofs.C08', 'Proofs.C08Init', 'Proofs.TieBasis', 'Proofs.DeclBasis'],
         'families': [('state', 1500, 30000), ('cell', 1500, 20000), ('site', 1000, 20000), ('opt', 1000, 20000)],
         'search': (12, 300),
         'rule': 'state: 7 groups x shapes x potentials, ops score/params/basis/label/relpos/cartpos incl. from_group initial states; search: range/family monitor on every recorded proposal, chains of 1..4 stages on real states, from_group validity for every group x shape family',
@@ -277,7 +277,7 @@ PROPS = {
         'level_text': 'Full proof over the reals: the Cartesian map is x*A + y*B with A=(a,0), B=(b cos t, b sin t); periodic_images of a placement within k shells is exactly the list of translates by n*A+m*B over the index set {|n|,|m|<=k} (minus (0,0) unless asked), each once, in order, orientation unchanged; area = |A x B|; corners/centre. The model functions are the same Lean terms that run at Float against the crate.',
         'level_note': 'Trusted: Lean kernel + 3 standard axioms; model of src/cell.rs tied by the bit-exact cell/mat request families (cells injected through the crate Deserialize); f64 rounding outside the theorems (statements are exact over R; the search evaluates them on the real outputs to 1e-12).',
         'technique': 'Lean 4 proof over R of a scalar-polymorphic executable model + bit-exact differential correspondence',
-        'theorems': ['Proofs.C14', 'Proofs.TieCell'],
+        'theorems': ['Proofs.C14', 'Proofs.TieCell', 'Proofs.TieImages'],
         'families': [('cell', 4000, 80000), ('mat', 2000, 40000)],
         'search': (6, 90),
         'rule': ('cell: cells over the optimiser box (40% on faces), 4 families, ops cart/area/ab/center/corners/iso/dof/fromfamily/images with shells -1..6; '
@@ -289,7 +289,7 @@ PROPS = {
         'level_text': 'Full proof over the reals: the wrap maps every coordinate into [-1/2,1/2), changes it by an integer, is 1-periodic and the identity on the cell; a site yields exactly one placement per operation with linear part L_k*Rot(theta), position in the canonical cell and congruent to g_k(x,y) mod Z^2; lattice-shifted coordinates / orientations +2*pi*j give the same placements (integrality of every table operation decided in the kernel on the regenerated tables). Wrap constants (period 1, offset -1/2) are regenerated from the source and pinned by a decidable obligation.',
         'level_note': 'Trusted: Lean kernel + 3 standard axioms; model of site.rs/transform.rs tied by bit-exact wrap/site/mat families incl. an exhaustive edge set (+-1/2, +-1/2 +- ulp, +-0, tiny, huge) for the double fmod; f64 rounding outside the theorems.',
         'technique': 'Lean 4 proof over R (floor/fract arithmetic) + kernel decision on generated tables + bit-exact differential correspondence',
-        'theorems': ['Proofs.C15', 'Proofs.TieWrap'],
+        'theorems': ['Proofs.C15', 'Proofs.TieWrap', 'Proofs.TieSite'],
         'families': [('wrap', 3000, 60000), ('site', 4000, 80000), ('mat', 1000, 20000)],
         'search': (6, 90),
         'rule': ('wrap: exhaustive edge set then random coordinates; site: all 7 groups, coordinates on/near the bounds 30%, lattice-shifted coordinates; '
@@ -339,7 +339,7 @@ PROPS = {
         'level_text': 'Full proof over R: a sample is within step*range/2 of the value, clamping never moves further from an in-range value, the adaptive ratio stays in (0,1] for every rejection history, hence every proposal of every loop changes exactly one cell by at most max_step_size*(max-min)/2.',
         'level_note': 'Trusted: Lean kernel + 3 axioms; draw in [-1/2,1/2) (rand gen_range, pinned by rng family).',
         'technique': 'Lean 4 invariant proof over runs + bit-exact differential correspondence',
-        'theorems': ['Proofs.C19', 'Proofs.C07Draw', 'Proofs.TieBasis'],
+        'theorems': ['Proofs.C19', 'Proofs.C07Draw', 'Proofs.TieBasis', 'Proofs.DeclBasis'],
         'families': [('basis', 1000, 20000), ('opt', 1500, 30000)],
         'search': (10, 240),
         'rule': 'opt as for C05 with multi-loop configurations and all rejection rates; search: per-proposal step-bound monitor on recorded real histories',
